@@ -2,19 +2,9 @@
    every run) and the hand-written model. *)
 From Coq Require Import ZArith Bool Lia List String.
 From SV Require Import Parser.Protocol Parser.Window Resolve.Op Gen.Kernels GenTie.Table.
+From SV Require Export GenTie.Tactics.
 Import ListNotations.
 Local Open Scope Z_scope.
-
-Lemma to_int64_id z : - 2^63 <= z < 2^63 -> to_int64 z = z.
-Proof.
-  intros H. unfold to_int64. rewrite Z.mod_small by lia. lia.
-Qed.
-
-Lemma to_uint64_id z : 0 <= z < 2^64 -> to_uint64 z = z.
-Proof. intros H. unfold to_uint64. apply Z.mod_small. lia. Qed.
-
-Lemma small_int64 z : small z -> to_int64 z = z.
-Proof. unfold small. intros H. apply to_int64_id. lia. Qed.
 
 (* operationapplier.getAnchorUntil is the model's effective upper bound, and reads
    MaxOperationTimeDelta *)
@@ -22,7 +12,7 @@ Theorem applier_getAnchorUntil_tie p f u :
   small (MaxOperationTimeDelta p) ->
   gen_applier_getAnchorUntil p f u = eff_until (MaxOperationTimeDelta p) f u.
 Proof.
-  intros Hs. unfold gen_applier_getAnchorUntil, eff_until. rewrite small_int64 by assumption. reflexivity.
+  intros Hs. unfold gen_applier_getAnchorUntil, eff_until. tie.
 Qed.
 
 (* operationparser.getAnchorUntil (intake) computes the same bound *)
@@ -30,7 +20,7 @@ Theorem parser_getAnchorUntil_tie p f u :
   small (MaxOperationTimeDelta p) ->
   gen_parser_getAnchorUntil p f u = eff_until (MaxOperationTimeDelta p) f u.
 Proof.
-  intros Hs. unfold gen_parser_getAnchorUntil, eff_until. rewrite small_int64 by assumption. reflexivity.
+  intros Hs. unfold gen_parser_getAnchorUntil, eff_until. tie.
 Qed.
 
 (* operationapplier.verifyAnchoringTimeRange is the model's window test (true = no error) *)
@@ -39,8 +29,7 @@ Theorem applier_verify_tie p f u a :
   gen_applier_verifyAnchoringTimeRange p f u a = in_window (MaxOperationTimeDelta p) f u a.
 Proof.
   intros Hs Ha. unfold gen_applier_verifyAnchoringTimeRange, in_window.
-  rewrite applier_getAnchorUntil_tie by assumption. rewrite (small_int64 a) by assumption.
-  reflexivity.
+  rewrite ?applier_getAnchorUntil_tie by assumption. unfold eff_until. tie.
 Qed.
 
 (* the only protocol parameter the window kernels read *)
